@@ -9,3 +9,10 @@ import LdkModel.Props.C03
 #print axioms Ldk.C03.duplicates_idempotent
 #print axioms Ldk.C03.absent_implies_no_part
 #print axioms Ldk.C03.restart_never_contradicts_partial
+#print axioms Ldk.C03.send_results_classified
+#print axioms Ldk.C03.entry_dropped_on_send_failure_only_if_nothing_in_flight
+#print axioms Ldk.C03.in_flight_tracked
+#print axioms Ldk.C03.pending_amount_is_in_flight_sum
+#print axioms Ldk.C03.retry_requests_missing_amount
+#print axioms Ldk.C03.failed_only_when_nothing_in_flight
+#print axioms Ldk.C03.dropped_only_when_nothing_in_flight
